@@ -107,6 +107,10 @@ pub struct SecondaryStorage {
 
     /// Indexes of the current storage engine
     indexes: Mutex<InMemoryIndexes>,
+
+    /// Serializes CREATE TABLE: the duplicate check, the manifest entry and the catalog update
+    /// must not interleave with those of another CREATE TABLE.
+    create_table_lock: Mutex<()>,
 }
 
 impl SecondaryStorage {
